@@ -125,6 +125,40 @@ def foreign(rng, depth=0):
     return s
 
 
+def select_frag(rng, depth=0):
+    """select / template-in-select / frameset contexts of the ambiguity guard, with text-mode elements and
+    nested templates inside (strict mode refuses some of these; non-strict goes on)."""
+    r = rng.random()
+    if r < 0.6:
+        s = start_tag(rng, "select")
+        for _ in range(rng.randrange(0, 4)):
+            q = rng.random()
+            if q < 0.45:
+                s += start_tag(rng, "template")
+                for _ in range(rng.randrange(0, 3)):
+                    s += rng.choice([start_tag(rng), text_elem(rng), "x", start_tag(rng, "option"),
+                                     select_frag(rng, depth + 1) if depth < 2 else "y",
+                                     start_tag(rng, "template") + rng.choice(["", text_elem(rng)]) + end_tag(rng, "template")])
+                if rng.random() < 0.8:
+                    s += end_tag(rng, "template")
+            elif q < 0.6:
+                s += start_tag(rng, rng.choice(["option", "optgroup", "script", "input", "keygen", "hr"])) + rng.choice(["x", ""])
+            elif q < 0.8:
+                s += text_elem(rng)
+            else:
+                s += rng.choice([end_tag(rng, "template"), end_tag(rng, "option"), start_tag(rng, "select"), "z"])
+        if rng.random() < 0.7:
+            s += end_tag(rng, "select")
+        return s
+    s = start_tag(rng, "frameset")
+    for _ in range(rng.randrange(0, 3)):
+        s += rng.choice([start_tag(rng, "frame"), start_tag(rng, "frameset"), end_tag(rng, "frameset"),
+                         text_elem(rng), start_tag(rng, "noframes") + "x" + end_tag(rng, "noframes")])
+    if rng.random() < 0.6:
+        s += end_tag(rng, "frameset")
+    return s + rng.choice(["", text_elem(rng)])
+
+
 def truncated(rng):
     full = rng.choice([start_tag(rng), end_tag(rng), comment(rng), doctype(rng), text_elem(rng), "<![CDATA[x]]>"])
     return full[: rng.randrange(1, len(full) + 1)]
@@ -144,8 +178,10 @@ def fragment(rng):
         return doctype(rng)
     if r < 0.78:
         return text_elem(rng)
-    if r < 0.88:
+    if r < 0.86:
         return foreign(rng)
+    if r < 0.91:
+        return select_frag(rng)
     if r < 0.96:
         return truncated(rng)
     return "".join(chr(rng.choice([60, 62, 47, 33, 45, 61, 34, 39, 32, 97, 65, 93, 91, 0, 255, 10])) for _ in range(rng.randrange(1, 8)))
